@@ -187,195 +187,7 @@ func checkC18(c *core.Ctx, l *core.Ledger) {
 	l.RuleText = "one obligation per pool site / pooled field / borrow site / critical section / package-level variable"
 	l.Assumptions = []string{"sync.Pool, sync.Mutex, sync.WaitGroup behave as documented", "external callers release each borrowed object exactly once and do not use it afterwards"}
 
-	ps := pools(c, "protocol/binary", "protocol", "wire", "protocol/stream", "envelope", "internal/envelope", "internal/frame")
-	if len(ps) == 0 {
-		l.Unk("POOL-SITES", "anchor", "", "no sync.Pool found")
-	}
-	for _, p := range ps {
-		name := p.g.Name()
-		if p.typ == nil || len(p.gets) == 0 || len(p.puts) == 0 {
-			l.Unk("POOL-SITES", name, c.Rel(p.g.Pos()), fmt.Sprintf("pool shape not recognised (type=%v gets=%d puts=%d)", p.typ, len(p.gets), len(p.puts)))
-			continue
-		}
-		tname := p.typ.Obj().Name()
-		// Get sites: the result is asserted to *T
-		for i, g := range p.gets {
-			obj := pooledObject(g)
-			ok := obj != nil && core.RecvTypeName(obj.Type()) == tname
-			l.Check(ok, "POOL-SITES", fmt.Sprintf("%s:Get#%d@%s", name, i+1, core.SSAName(g.Parent())), c.Rel(g.Pos()), "Get result is asserted to the pool's element type *"+tname, "Get result is not asserted to *"+tname)
-		}
-		for i, put := range p.puts {
-			call := put.(ssa.CallInstruction)
-			arg := call.Common().Args[1]
-			if mi, ok := arg.(*ssa.MakeInterface); ok {
-				arg = mi.X
-			}
-			_, isParam := arg.(*ssa.Parameter)
-			ok := isParam && core.RecvTypeName(arg.Type()) == tname
-			key := fmt.Sprintf("%s:Put#%d@%s", name, i+1, core.SSAName(put.Parent()))
-			l.Check(ok, "POOL-SITES", key, c.Rel(put.Pos()), "Put receives the release function's own *"+tname+" parameter", "Put receives something other than the release function's *"+tname+" parameter (foreign or derived object enters the pool)")
-			if !ok {
-				continue
-			}
-			// POOL-PUT: no use after Put, at most one Put per path
-			uses := map[ssa.Instruction]bool{}
-			for _, r := range *arg.Referrers() {
-				uses[r] = true
-			}
-			after, _ := core.PathAvoiding(put, nil, func(in ssa.Instruction) bool {
-				if uses[in] {
-					return true
-				}
-				// uses of values derived from the object (field addresses)
-				for _, op := range in.Operands(nil) {
-					if fa, ok := (*op).(*ssa.FieldAddr); ok && fa.X == arg {
-						return true
-					}
-				}
-				return false
-			})
-			twice, _ := core.PathAvoiding(put, nil, func(in ssa.Instruction) bool {
-				for _, q := range p.puts {
-					if q == in {
-						return true
-					}
-				}
-				return false
-			})
-			why := ""
-			if after {
-				why = "the object is used after it was handed back to the pool"
-			}
-			if twice {
-				why = "a path executes Put twice: the same object would be handed to two borrowers"
-			}
-			l.Check(!after && !twice, "POOL-PUT", key, c.Rel(put.Pos()), "nothing touches the object after Put and no path reaches a second Put", why)
-		}
-		// POOL-RESET per field
-		st := p.typ.Underlying().(*types.Struct)
-		// initialisation sites
-		type site struct {
-			f   *ssa.Function
-			obj ssa.Value
-			at  ssa.Instruction
-		}
-		var sites []site
-		for _, g := range p.gets {
-			obj := pooledObject(g)
-			if obj == nil {
-				continue
-			}
-			if len(fieldStoresOf(obj)) > 0 {
-				sites = append(sites, site{g.Parent(), obj, obj.(ssa.Instruction)})
-				continue
-			}
-			// a bare wrapper: its callers initialise
-			for _, cs := range c.StaticCallSites(g.Parent()) {
-				if v, ok := cs.(ssa.Value); ok {
-					sites = append(sites, site{cs.Parent(), v, cs})
-				}
-			}
-		}
-		// stores to fields of T anywhere (for the construction-only class)
-		storesOutsideNew := map[int][]string{}
-		for _, f := range c.AllFuncs() {
-			if f == p.newF || c.IsTestFile(f.Pos()) {
-				continue
-			}
-			core.Instrs(f, func(in ssa.Instruction) {
-				s, ok := in.(*ssa.Store)
-				if !ok {
-					return
-				}
-				if fa, ok := s.Addr.(*ssa.FieldAddr); ok && core.RecvTypeName(fa.X.Type()) == tname {
-					if n, ok := fa.X.Type().(*types.Pointer).Elem().(*types.Named); ok && n.Obj() == p.typ.Obj() {
-						storesOutsideNew[fa.Field] = append(storesOutsideNew[fa.Field], core.SSAName(f))
-					}
-				}
-			})
-		}
-		for k := 0; k < st.NumFields(); k++ {
-			fld := st.Field(k)
-			key := fmt.Sprintf("%s.%s", tname, fld.Name())
-			// (c) construction-only
-			if len(storesOutsideNew[k]) == 0 {
-				setInNew := false
-				if p.newF != nil {
-					core.Instrs(p.newF, func(in ssa.Instruction) {
-						if s, ok := in.(*ssa.Store); ok {
-							if fa, ok := s.Addr.(*ssa.FieldAddr); ok && fa.Field == k && core.RecvTypeName(fa.X.Type()) == tname {
-								setInNew = true
-							}
-						}
-					})
-				}
-				if setInNew {
-					l.Ok("POOL-RESET", key, c.Rel(fld.Pos()), "written only by the pool's New function (fixed for the object's lifetime)")
-					continue
-				}
-				if arr, isArr := fld.Type().Underlying().(*types.Array); isArr {
-					if b, isB := arr.Elem().Underlying().(*types.Basic); isB && b.Kind() == types.Uint8 {
-						l.Ok("POOL-RESET", key, c.Rel(fld.Pos()), "value-typed scratch array private to the object (never assigned as a whole)")
-						continue
-					}
-				}
-				if _, isEmb := fld.Type().Underlying().(*types.Struct); isEmb && fld.Type().Underlying().(*types.Struct).NumFields() == 0 {
-					l.Ok("POOL-RESET", key, c.Rel(fld.Pos()), "field-less")
-					continue
-				}
-			}
-			// (b) reset before every Put
-			resetAll := true
-			for _, put := range p.puts {
-				f := put.Parent()
-				call := put.(ssa.CallInstruction)
-				arg := call.Common().Args[1]
-				if mi, ok := arg.(*ssa.MakeInterface); ok {
-					arg = mi.X
-				}
-				isReset := func(in ssa.Instruction) bool {
-					s, ok := in.(*ssa.Store)
-					if !ok {
-						return false
-					}
-					fa, ok := s.Addr.(*ssa.FieldAddr)
-					return ok && fa.X == arg && fa.Field == k && isZeroConst(s.Val)
-				}
-				if found, _ := core.PathFromEntryAvoiding(f, isReset, func(in ssa.Instruction) bool { return in == put }); found {
-					resetAll = false
-				}
-			}
-			// (a) assigned on all paths at every initialisation site
-			assignedAll := len(sites) > 0
-			var missing []string
-			for _, s := range sites {
-				obj := s.obj
-				isAssign := func(in ssa.Instruction) bool {
-					st, ok := in.(*ssa.Store)
-					if !ok {
-						return false
-					}
-					fa, ok := st.Addr.(*ssa.FieldAddr)
-					return ok && fa.X == obj && fa.Field == k
-				}
-				if leak, _ := core.PathToExitAvoiding(s.at, isAssign, false); leak {
-					assignedAll = false
-					missing = append(missing, core.SSAName(s.f))
-				}
-			}
-			switch {
-			case assignedAll:
-				l.Ok("POOL-RESET", key, c.Rel(fld.Pos()), fmt.Sprintf("assigned on every path at all %d initialisation sites", len(sites)))
-			case resetAll:
-				l.Ok("POOL-RESET", key, c.Rel(fld.Pos()), "reset to its zero value before every Put; conditional assignment at borrow time cannot expose a previous borrower's value")
-			default:
-				l.Bad("POOL-RESET", key, c.Rel(fld.Pos()), "field is neither assigned on all paths when the object is borrowed ("+strings.Join(uniq(missing), ", ")+") nor reset before Put: a value left by the previous borrower can be observed")
-			}
-		}
-	}
-	l.Floor("POOL-SITES", 10)
-	l.Floor("POOL-PUT", 5)
-	l.Floor("POOL-RESET", 12)
+	checkPools(c, l)
 
 	// ---- POOL-PAIR
 	checkBorrowPairs(c, l, "POOL-PAIR", nil, func(f *ssa.Function) bool { return !core.IsGenerated2(c, f) })
@@ -601,6 +413,7 @@ func fanoutClosureProblem(mc *ssa.MakeClosure) string {
 		return ""
 	}
 	var lock ssa.Instruction
+	var unlocks []ssa.Instruction
 	deferred := false
 	core.Instrs(body, func(in ssa.Instruction) {
 		call, ok := in.(ssa.CallInstruction)
@@ -616,6 +429,8 @@ func fanoutClosureProblem(mc *ssa.MakeClosure) string {
 		}
 		if _, isD := in.(*ssa.Defer); isD && o.Name() == "Unlock" {
 			deferred = true
+		} else if o.Name() == "Unlock" {
+			unlocks = append(unlocks, in)
 		} else if o.Name() == "Lock" && lock == nil {
 			lock = in
 		}
@@ -623,8 +438,22 @@ func fanoutClosureProblem(mc *ssa.MakeClosure) string {
 	if lock == nil {
 		return "the callback writes captured variables without taking a captured mutex"
 	}
+	isUnlock := func(in ssa.Instruction) bool {
+		for _, u := range unlocks {
+			if u == in {
+				return true
+			}
+		}
+		return false
+	}
 	if !deferred {
-		return "the callback does not defer Unlock of the captured mutex"
+		if len(unlocks) == 0 {
+			return "the callback never unlocks the captured mutex"
+		}
+		// explicit unlock: every path from Lock to a return passes it
+		if leak, _ := core.PathToExitAvoiding(lock, isUnlock, true); leak {
+			return "a path of the callback returns (or panics) with the captured mutex still held"
+		}
 	}
 	bad := ""
 	core.Instrs(body, func(in ssa.Instruction) {
@@ -642,6 +471,11 @@ func fanoutClosureProblem(mc *ssa.MakeClosure) string {
 		}
 		if found, _ := core.PathFromEntryAvoiding(body, func(i2 ssa.Instruction) bool { return i2 == lock }, func(i2 ssa.Instruction) bool { return i2 == in }); found {
 			bad = "a captured variable that the callback writes is accessed before the lock is taken"
+		}
+		for _, u := range unlocks {
+			if found, _ := core.PathAvoiding(u, func(i2 ssa.Instruction) bool { return i2 == lock }, func(i2 ssa.Instruction) bool { return i2 == in }); found {
+				bad = "a captured variable that the callback writes is accessed after the mutex was released"
+			}
 		}
 	})
 	return bad
@@ -818,4 +652,200 @@ func globalRoot(v ssa.Value) *ssa.Global {
 		}
 	}
 	return nil
+}
+
+// checkPools: POOL-SITES, POOL-PUT and POOL-RESET over the codec's sync.Pools
+// (shared by C18 and C03: a pooled reader whose fields are not completely
+// re-initialised carries state of a previous decode into the next one).
+func checkPools(c *core.Ctx, l *core.Ledger) {
+	ps := pools(c, "protocol/binary", "protocol", "wire", "protocol/stream", "envelope", "internal/envelope", "internal/frame")
+	if len(ps) == 0 {
+		l.Unk("POOL-SITES", "anchor", "", "no sync.Pool found")
+	}
+	for _, p := range ps {
+		name := p.g.Name()
+		if p.typ == nil || len(p.gets) == 0 || len(p.puts) == 0 {
+			l.Unk("POOL-SITES", name, c.Rel(p.g.Pos()), fmt.Sprintf("pool shape not recognised (type=%v gets=%d puts=%d)", p.typ, len(p.gets), len(p.puts)))
+			continue
+		}
+		tname := p.typ.Obj().Name()
+		// Get sites: the result is asserted to *T
+		for i, g := range p.gets {
+			obj := pooledObject(g)
+			ok := obj != nil && core.RecvTypeName(obj.Type()) == tname
+			l.Check(ok, "POOL-SITES", fmt.Sprintf("%s:Get#%d@%s", name, i+1, core.SSAName(g.Parent())), c.Rel(g.Pos()), "Get result is asserted to the pool's element type *"+tname, "Get result is not asserted to *"+tname)
+		}
+		for i, put := range p.puts {
+			call := put.(ssa.CallInstruction)
+			arg := call.Common().Args[1]
+			if mi, ok := arg.(*ssa.MakeInterface); ok {
+				arg = mi.X
+			}
+			_, isParam := arg.(*ssa.Parameter)
+			ok := isParam && core.RecvTypeName(arg.Type()) == tname
+			key := fmt.Sprintf("%s:Put#%d@%s", name, i+1, core.SSAName(put.Parent()))
+			l.Check(ok, "POOL-SITES", key, c.Rel(put.Pos()), "Put receives the release function's own *"+tname+" parameter", "Put receives something other than the release function's *"+tname+" parameter (foreign or derived object enters the pool)")
+			if !ok {
+				continue
+			}
+			// POOL-PUT: no use after Put, at most one Put per path
+			uses := map[ssa.Instruction]bool{}
+			for _, r := range *arg.Referrers() {
+				uses[r] = true
+			}
+			after, _ := core.PathAvoiding(put, nil, func(in ssa.Instruction) bool {
+				if uses[in] {
+					return true
+				}
+				// uses of values derived from the object (field addresses)
+				for _, op := range in.Operands(nil) {
+					if fa, ok := (*op).(*ssa.FieldAddr); ok && fa.X == arg {
+						return true
+					}
+				}
+				return false
+			})
+			twice, _ := core.PathAvoiding(put, nil, func(in ssa.Instruction) bool {
+				for _, q := range p.puts {
+					if q == in {
+						return true
+					}
+				}
+				return false
+			})
+			why := ""
+			if after {
+				why = "the object is used after it was handed back to the pool"
+			}
+			if twice {
+				why = "a path executes Put twice: the same object would be handed to two borrowers"
+			}
+			l.Check(!after && !twice, "POOL-PUT", key, c.Rel(put.Pos()), "nothing touches the object after Put and no path reaches a second Put", why)
+		}
+		// POOL-RESET per field
+		st := p.typ.Underlying().(*types.Struct)
+		// initialisation sites
+		type site struct {
+			f   *ssa.Function
+			obj ssa.Value
+			at  ssa.Instruction
+		}
+		var sites []site
+		for _, g := range p.gets {
+			obj := pooledObject(g)
+			if obj == nil {
+				continue
+			}
+			if len(fieldStoresOf(obj)) > 0 {
+				sites = append(sites, site{g.Parent(), obj, obj.(ssa.Instruction)})
+				continue
+			}
+			// a bare wrapper: its callers initialise
+			for _, cs := range c.StaticCallSites(g.Parent()) {
+				if v, ok := cs.(ssa.Value); ok {
+					sites = append(sites, site{cs.Parent(), v, cs})
+				}
+			}
+		}
+		// stores to fields of T anywhere (for the construction-only class)
+		storesOutsideNew := map[int][]string{}
+		for _, f := range c.AllFuncs() {
+			if f == p.newF || c.IsTestFile(f.Pos()) {
+				continue
+			}
+			core.Instrs(f, func(in ssa.Instruction) {
+				s, ok := in.(*ssa.Store)
+				if !ok {
+					return
+				}
+				if fa, ok := s.Addr.(*ssa.FieldAddr); ok && core.RecvTypeName(fa.X.Type()) == tname {
+					if n, ok := fa.X.Type().(*types.Pointer).Elem().(*types.Named); ok && n.Obj() == p.typ.Obj() {
+						storesOutsideNew[fa.Field] = append(storesOutsideNew[fa.Field], core.SSAName(f))
+					}
+				}
+			})
+		}
+		for k := 0; k < st.NumFields(); k++ {
+			fld := st.Field(k)
+			key := fmt.Sprintf("%s.%s", tname, fld.Name())
+			// (c) construction-only
+			if len(storesOutsideNew[k]) == 0 {
+				setInNew := false
+				if p.newF != nil {
+					core.Instrs(p.newF, func(in ssa.Instruction) {
+						if s, ok := in.(*ssa.Store); ok {
+							if fa, ok := s.Addr.(*ssa.FieldAddr); ok && fa.Field == k && core.RecvTypeName(fa.X.Type()) == tname {
+								setInNew = true
+							}
+						}
+					})
+				}
+				if setInNew {
+					l.Ok("POOL-RESET", key, c.Rel(fld.Pos()), "written only by the pool's New function (fixed for the object's lifetime)")
+					continue
+				}
+				if arr, isArr := fld.Type().Underlying().(*types.Array); isArr {
+					if b, isB := arr.Elem().Underlying().(*types.Basic); isB && b.Kind() == types.Uint8 {
+						l.Ok("POOL-RESET", key, c.Rel(fld.Pos()), "value-typed scratch array private to the object (never assigned as a whole)")
+						continue
+					}
+				}
+				if _, isEmb := fld.Type().Underlying().(*types.Struct); isEmb && fld.Type().Underlying().(*types.Struct).NumFields() == 0 {
+					l.Ok("POOL-RESET", key, c.Rel(fld.Pos()), "field-less")
+					continue
+				}
+			}
+			// (b) reset before every Put
+			resetAll := true
+			for _, put := range p.puts {
+				f := put.Parent()
+				call := put.(ssa.CallInstruction)
+				arg := call.Common().Args[1]
+				if mi, ok := arg.(*ssa.MakeInterface); ok {
+					arg = mi.X
+				}
+				isReset := func(in ssa.Instruction) bool {
+					s, ok := in.(*ssa.Store)
+					if !ok {
+						return false
+					}
+					fa, ok := s.Addr.(*ssa.FieldAddr)
+					return ok && fa.X == arg && fa.Field == k && isZeroConst(s.Val)
+				}
+				if found, _ := core.PathFromEntryAvoiding(f, isReset, func(in ssa.Instruction) bool { return in == put }); found {
+					resetAll = false
+				}
+			}
+			// (a) assigned on all paths at every initialisation site
+			assignedAll := len(sites) > 0
+			var missing []string
+			for _, s := range sites {
+				obj := s.obj
+				isAssign := func(in ssa.Instruction) bool {
+					st, ok := in.(*ssa.Store)
+					if !ok {
+						return false
+					}
+					fa, ok := st.Addr.(*ssa.FieldAddr)
+					return ok && fa.X == obj && fa.Field == k
+				}
+				if leak, _ := core.PathToExitAvoiding(s.at, isAssign, false); leak {
+					assignedAll = false
+					missing = append(missing, core.SSAName(s.f))
+				}
+			}
+			switch {
+			case assignedAll:
+				l.Ok("POOL-RESET", key, c.Rel(fld.Pos()), fmt.Sprintf("assigned on every path at all %d initialisation sites", len(sites)))
+			case resetAll:
+				l.Ok("POOL-RESET", key, c.Rel(fld.Pos()), "reset to its zero value before every Put; conditional assignment at borrow time cannot expose a previous borrower's value")
+			default:
+				l.Bad("POOL-RESET", key, c.Rel(fld.Pos()), "field is neither assigned on all paths when the object is borrowed ("+strings.Join(uniq(missing), ", ")+") nor reset before Put: a value left by the previous borrower can be observed")
+			}
+		}
+	}
+	l.Floor("POOL-SITES", 10)
+	l.Floor("POOL-PUT", 5)
+	l.Floor("POOL-RESET", 12)
+
 }
